@@ -328,42 +328,45 @@ impl<'a> GraphBuilder<'a> {
 
     fn append_from_visitor<'b>(&mut self, iter: impl NodeIter<'b>) {
         self.insert = false;
-
-        if iter.is_document() {
-            self.append_from_visitor(iter.child().unwrap());
-            return;
-        }
-
-        iter.node().map(|node| {
-            self.add_new_node_and(node, |builder| {
-                iter.child().map(|child| {
-                    builder.insert_from_iter(child);
-                });
-                iter.next().map(|next| {
-                    builder.append_from_visitor(next);
-                });
-            });
-        });
+        self.add_siblings(iter);
     }
 
     pub fn insert_from_iter<'b>(&mut self, iter: impl NodeIter<'b>) {
         self.insert = true;
+        self.add_siblings(iter);
+    }
 
+    // the node under `iter` with everything below it, then its following siblings one after the
+    // other (a loop, not a recursion: a note can have tens of thousands of blocks in a row)
+    fn add_siblings<'b>(&mut self, iter: impl NodeIter<'b>) {
         if iter.is_document() {
-            self.insert_from_iter(iter.child().unwrap());
+            if self.insert {
+                self.insert_from_iter(iter.child().unwrap());
+            } else {
+                self.append_from_visitor(iter.child().unwrap());
+            }
             return;
         }
 
-        iter.node().map(|node| {
+        let start_id = self.id;
+        let mut current = Some(iter);
+        while let Some(iter) = current {
+            let Some(node) = iter.node() else {
+                break;
+            };
+            let mut added_id = self.id;
             self.add_new_node_and(node, |builder| {
+                added_id = builder.id();
                 iter.child().map(|child| {
                     builder.insert_from_iter(child);
                 });
-                iter.next().map(|next| {
-                    builder.append_from_visitor(next);
-                });
             });
-        });
+            // the next sibling goes after the node just added
+            self.id = added_id;
+            self.insert = false;
+            current = iter.next();
+        }
+        self.id = start_id;
     }
 
     pub fn link_node_id(&mut self, node_id: NodeId) {
